@@ -70,6 +70,21 @@ func (w *wrapper) get(tag string, fail bool) (int, error) {
 	return w.n, nil
 }
 
+func (w *wrapper) peek() (int, error) {
+	trace = append(trace, "peek")
+	return w.n + 1, nil
+}
+
+func noargs() (int, error) {
+	trace = append(trace, "noargs")
+	return 5, nil
+}
+
+func noargsFail() (int, error) {
+	trace = append(trace, "noargsFail")
+	return 0, errA
+}
+
 func use2(a int, b int) int {
 	return a*10 + b
 }
@@ -102,6 +117,16 @@ type wrapCall struct {
 	call  string // e1("g1", true, 3)
 	shape string // "0" | "int" | "string" | "2" | "list" | "rec"
 	fail  bool
+	xcall string // XGo spelling of the operand when it differs from call (`noargs`, `wr.peek`: no parentheses)
+	field string // ".sc": the wrapped value is a rec and the int is selected from it (`er(...)!.sc`)
+}
+
+// x is the XGo spelling of the wrapped operand.
+func (c wrapCall) x() string {
+	if c.xcall != "" {
+		return c.xcall
+	}
+	return c.call
 }
 
 func (g *G) wrapCall(shape string, fail bool) wrapCall {
@@ -109,20 +134,30 @@ func (g *G) wrapCall(shape string, fail bool) wrapCall {
 	f := fmt.Sprint(fail)
 	switch shape {
 	case "0":
-		return wrapCall{fmt.Sprintf("e0(%q, %s)", tag, f), shape, fail}
+		return wrapCall{call: fmt.Sprintf("e0(%q, %s)", tag, f), shape: shape, fail: fail}
 	case "int":
-		if g.Chance(25, "method") {
-			return wrapCall{fmt.Sprintf("wr.get(%q, %s)", tag, f), shape, fail}
+		switch g.Intn(8, "intform") {
+		case 0, 1:
+			return wrapCall{call: fmt.Sprintf("wr.get(%q, %s)", tag, f), shape: shape, fail: fail}
+		case 2: // identifier without parentheses
+			if fail {
+				return wrapCall{call: "noargsFail()", xcall: "noargsFail", shape: shape, fail: true}
+			}
+			return wrapCall{call: "noargs()", xcall: "noargs", shape: shape}
+		case 3: // selector without parentheses
+			return wrapCall{call: "wr.peek()", xcall: "wr.peek", shape: shape}
+		case 4: // a field of the wrapped value
+			return wrapCall{call: fmt.Sprintf("er(%q, %s, %d)", tag, f, g.Intn(9, "v")), shape: shape, fail: fail, field: ".sc"}
 		}
-		return wrapCall{fmt.Sprintf("e1(%q, %s, %d)", tag, f, g.Intn(9, "v")), shape, fail}
+		return wrapCall{call: fmt.Sprintf("e1(%q, %s, %d)", tag, f, g.Intn(9, "v")), shape: shape, fail: fail}
 	case "string":
-		return wrapCall{fmt.Sprintf("es(%q, %s, %q)", tag, f, "s"+fmt.Sprint(g.Intn(9, "v"))), shape, fail}
+		return wrapCall{call: fmt.Sprintf("es(%q, %s, %q)", tag, f, "s"+fmt.Sprint(g.Intn(9, "v"))), shape: shape, fail: fail}
 	case "2":
-		return wrapCall{fmt.Sprintf("e2(%q, %s, %d, %q)", tag, f, g.Intn(9, "v"), "b"), shape, fail}
+		return wrapCall{call: fmt.Sprintf("e2(%q, %s, %d, %q)", tag, f, g.Intn(9, "v"), "b"), shape: shape, fail: fail}
 	case "list":
-		return wrapCall{fmt.Sprintf("el(%q, %s, %d)", tag, f, g.Intn(4, "v")), shape, fail}
+		return wrapCall{call: fmt.Sprintf("el(%q, %s, %d)", tag, f, g.Intn(4, "v")), shape: shape, fail: fail}
 	}
-	return wrapCall{fmt.Sprintf("er(%q, %s, %d)", tag, f, g.Intn(9, "v")), shape, fail}
+	return wrapCall{call: fmt.Sprintf("er(%q, %s, %d)", tag, f, g.Intn(9, "v")), shape: shape, fail: fail}
 }
 
 func zeroOf(shape string) string {
@@ -248,7 +283,10 @@ func (g *G) ErrWrapItem() Item {
 			return
 		}
 		target := map[string]string{"int": "a", "string": "s", "list": "l", "rec": "r"}[c.shape]
-		wrapped := c.call + op
+		if op == "?:" && c.field != "" { // (x ?: d).f is not written: wrap the int-valued twin of er instead
+			c.call, c.field = strings.Replace(c.call, "er(", "e1(", 1), ""
+		}
+		wrapped := c.x() + op + c.field
 		var goVal string
 		var goPre string
 		if op == "?:" {
@@ -257,15 +295,15 @@ func (g *G) ErrWrapItem() Item {
 			if c.shape == "list" {
 				xdef = "[4, 2]"
 			}
-			wrapped = c.call + "?:" + xdef
+			wrapped = c.x() + "?:" + xdef
 			goVal = fmt.Sprintf("func() %s {\n\tv, err := %s\n\tif err != nil {\n\t\treturn %s\n\t}\n\treturn v\n}()", goType(c.shape), c.call, def)
 		} else {
 			goPre = fmt.Sprintf("%s, err := %s\nif err != nil {\n\t%s\n}\n", tmp, c.call, onErr)
-			goVal = tmp
+			goVal = tmp + c.field
 		}
 		switch use {
 		case "discard":
-			if op == "?:" { // a defaulted value as a statement would be an unused value
+			if op == "?:" || c.field != "" { // a defaulted value or a selected field as a statement would be an unused value
 				bx = append(bx, fmt.Sprintf("%s = %s", target, wrapped))
 				bg = append(bg, fmt.Sprintf("%s%s = %s", goPre, target, goVal))
 				break
@@ -324,16 +362,22 @@ func (g *G) ErrWrapItem() Item {
 		nwrap += 2
 		switch op {
 		case "?:":
-			bx = append(bx, fmt.Sprintf("a = %s?:1 + %s?:2", c1.call, c2.call))
+			if c1.field != "" {
+				c1.call, c1.field = strings.Replace(c1.call, "er(", "e1(", 1), ""
+			}
+			if c2.field != "" {
+				c2.call, c2.field = strings.Replace(c2.call, "er(", "e1(", 1), ""
+			}
+			bx = append(bx, fmt.Sprintf("a = %s?:1 + %s?:2", c1.x(), c2.x()))
 			bg = append(bg, fmt.Sprintf("a = func() int {\n\tv, err := %s\n\tif err != nil {\n\t\treturn 1\n\t}\n\treturn v\n}() + func() int {\n\tv, err := %s\n\tif err != nil {\n\t\treturn 2\n\t}\n\treturn v\n}()", c1.call, c2.call))
 		default:
 			onErr := "panic(err)"
 			if op == "?" {
 				onErr = "return " + retZero()
 			}
-			bx = append(bx, fmt.Sprintf("a = %s%s + %s%s", c1.call, op, c2.call, op))
+			bx = append(bx, fmt.Sprintf("a = %s%s%s + %s%s%s", c1.x(), op, c1.field, c2.x(), op, c2.field))
 			t1, t2 := g.Var("w"), g.Var("w")
-			bg = append(bg, fmt.Sprintf("%s, err := %s\nif err != nil {\n\t%s\n}\n%s, err := %s\nif err != nil {\n\t%s\n}\na = %s + %s", t1, c1.call, onErr, t2, c2.call, onErr, t1, t2))
+			bg = append(bg, fmt.Sprintf("%s, err := %s\nif err != nil {\n\t%s\n}\n%s, err := %s\nif err != nil {\n\t%s\n}\na = %s%s + %s%s", t1, c1.call, onErr, t2, c2.call, onErr, t1, c1.field, t2, c2.field))
 		}
 	}
 	okRet := retOK(map[string]string{"int": "a", "string": "s", "list": "l", "rec": "r"})
